@@ -96,7 +96,7 @@ pub fn adapter_op(g: &mut G) -> Option<Op> {
             g.tasks.push(task);
             let total = *g.rng.pick(&[1u32, 7, 64, 300, 5000, 20000]);
             let chunk = *g.rng.pick(&[1u32, 3, 16, 100, 4096, 9000]);
-            Some(Op::AdapterTask { exec, task, adapter, kind: g.rng.below(6) as u8, total, chunk, then: *g.rng.pick(&[0u8, 0, 1, 2]) })
+            Some(Op::AdapterTask { exec, task, adapter, kind: g.rng.below(7) as u8, total, chunk, then: *g.rng.pick(&[0u8, 0, 1, 2]) })
         }
         6..=8 => Some(Op::AdapterPeerWrite(*g.rng.pick(&g.adapters.clone()), *g.rng.pick(&[1u32, 5, 64, 1000, 6000, 30000]))),
         9 | 10 => Some(Op::AdapterPeerRead(*g.rng.pick(&g.adapters.clone()), *g.rng.pick(&[1u32, 64, 4096, 70000]))),
@@ -138,4 +138,39 @@ pub fn signal_op(g: &mut G) -> Option<Op> {
         10 | 11 | 12 => Op::Dispatch(Timeout::Zero),
         _ => Op::Raise(g.rng.below(4) as u8),
     })
+}
+
+/// Retarget some CancelIdle / DropIdle operations to any idle of the whole program, including
+/// ones inserted later (an earlier idle cancelling a later idle of the same dispatch).
+pub fn retarget_idles(g: &mut G, ops: &mut Vec<Op>) {
+    if g.idles.is_empty() {
+        return;
+    }
+    let all = g.idles.clone();
+    fn rec(g: &mut G, all: &[Id], ops: &mut Vec<Op>) {
+        for op in ops.iter_mut() {
+            match op {
+                Op::CancelIdle(x) | Op::DropIdle(x) => {
+                    if g.rng.chance(1, 2) {
+                        *x = *g.rng.pick(all);
+                    }
+                }
+                _ => {}
+            }
+            for sub in op.scripts_mut() {
+                rec(g, all, sub);
+            }
+        }
+    }
+    rec(g, &all, ops);
+    // and sometimes make an idle cancel the idle inserted right after it
+    let idx: Vec<usize> = ops.iter().enumerate().filter(|(_, o)| matches!(o, Op::InsertIdle { .. })).map(|(i, _)| i).collect();
+    for w in idx.windows(2) {
+        if g.rng.chance(1, 3) {
+            let later = if let Op::InsertIdle { id, .. } = &ops[w[1]] { *id } else { continue };
+            if let Op::InsertIdle { ops: o, .. } = &mut ops[w[0]] {
+                o.push(Op::CancelIdle(later));
+            }
+        }
+    }
 }
